@@ -809,25 +809,77 @@ void Run::execute() {
   g_run = nullptr;
 }
 
+
+// ---- full (de)serialisation of a run configuration: replay files are self-contained ----
+#define CFG_INT_FIELDS(X) \
+  X(mode) X(flags) X(tries) X(timeout_ms) X(maxtimeout_ms) X(rotate) X(udp_max_queries) X(ndots) X(set_domains) X(qcache_max_ttl) \
+  X(retry_chance) X(retry_delay) X(ednspsz) X(sndbuf) X(rcvbuf) X(loop_style) X(pending_write_cb) X(sockfuncs) X(tfo) X(evsys) \
+  X(server_source) X(sock_create_cb) X(sock_config_cb) X(faults) X(allow_cancel_in_cb) X(use_tokens) X(nthreads) X(sched_policy) X(sched_preempt)
+#define CFG_STR_FIELDS(X) X(lookups) X(sortlist) X(resolv_conf) X(hosts_file) X(nsswitch) X(hostaliases) X(local_dev)
+#define PROF_INT_FIELDS(X) X(max_addrs) X(max_cname_chain) X(soa_pct) X(big_answer_pct) X(foreign_class_pct) X(additional_addr_pct) X(mixed_family_pct)
+
 std::string RunCfg::dump() const {
   JW j;
   j.obj();
-  j.kv("profile", profile).kv("seed", seed).kv("mode", mode).kv("flags", flags).kv("tries", tries).kv("timeout_ms", timeout_ms).kv("maxtimeout_ms", maxtimeout_ms);
-  j.kv("rotate", rotate).kv("udp_max_queries", udp_max_queries).kv("ndots", ndots).kv("lookups", lookups).kv("qcache_max_ttl", qcache_max_ttl);
-  j.kv("retry_chance", retry_chance).kv("retry_delay", retry_delay).kv("ednspsz", ednspsz).kv("sortlist", sortlist).kv("loop_style", loop_style);
-  j.kv("pending_write_cb", pending_write_cb).kv("sockfuncs", sockfuncs).kv("tfo", tfo).kv("evsys", evsys).kv("server_source", server_source);
-  j.kv("faults", faults).kv("allow_cancel_in_cb", allow_cancel_in_cb).kv("use_tokens", use_tokens).kv("nthreads", nthreads).kv("t0_us", t0_us);
-  j.kv("sock_create_cb", sock_create_cb).kv("sock_config_cb", sock_config_cb).kv("min_delay", min_delay).kv("max_delay", max_delay);
+  j.kv("profile", profile).kv("seed", seed);
+#define X(f) j.kv(#f, (int64_t)f);
+  CFG_INT_FIELDS(X)
+#undef X
+#define X(f) j.kv(#f, f);
+  CFG_STR_FIELDS(X)
+#undef X
+  j.kv("min_delay", min_delay).kv("max_delay", max_delay).kv("t0_us", t0_us).kv("local_ip4", (int64_t)local_ip4).kv("local_ip6", (int64_t)local_ip6);
   j.key("domains").arr(); for (auto &d : domains) j.val(d); j.end_arr();
-  j.kv("set_domains", set_domains);
   j.key("servers").arr();
-  for (auto &s : servers) { j.obj().kv("ip", s.ip).kv("udp", s.udp_port).kv("tcp", s.tcp_port).kv("cookie", s.cookie_mode).kv("tcp_refuse", s.tcp_refuse).kv("tcp_blackhole", s.tcp_blackhole).end_obj(); }
+  for (auto &s : servers) { j.obj().kv("ip", s.ip).kv("udp", (int64_t)s.udp_port).kv("tcp", (int64_t)s.tcp_port).kv("cookie", (int64_t)s.cookie_mode).kv("tcp_refuse", (int64_t)s.tcp_refuse).kv("tcp_blackhole", (int64_t)s.tcp_blackhole).kv("iface", s.iface).end_obj(); }
   j.end_arr();
-  j.key("beh_w").arr(); for (int w : beh_w) j.val(w); j.end_arr();
-  j.key("zone_w").arr(); for (int w : zone_w) j.val(w); j.end_arr();
-  j.key("names").arr(); for (size_t i = 0; i < names.size() && i < 12; i++) j.val(names[i]); j.end_arr();
-  j.key("qtypes").arr(); for (int t : qtypes) j.val(t); j.end_arr();
-  j.kv("resolv_conf", resolv_conf);
+  j.key("env").obj(); for (auto &e : env) j.kv(e.first.c_str(), e.second); j.end_obj();
+  j.key("beh_w").arr(); for (int w : beh_w) j.val((int64_t)w); j.end_arr();
+  j.key("zone_w").arr(); for (int w : zone_w) j.val((int64_t)w); j.end_arr();
+  j.key("names").arr(); for (auto &n : names) j.val(n); j.end_arr();
+  j.key("qtypes").arr(); for (int t : qtypes) j.val((int64_t)t); j.end_arr();
+  j.key("prof").obj();
+  j.kv("id", prof.id);
+#define X(f) j.kv(#f, (int64_t)prof.f);
+  PROF_INT_FIELDS(X)
+#undef X
+  j.key("ttl_choices").arr(); for (auto t : prof.ttl_choices) j.val((int64_t)t); j.end_arr();
+  j.end_obj();
+  j.key("knobs").obj(); for (auto &e : knobs) j.kv(e.first.c_str(), e.second); j.end_obj();
   j.end_obj();
   return j.s;
+}
+
+bool RunCfg::load(const JV &v) {
+  if (v.t != JV::OBJ) return false;
+  profile = v.gets("profile", profile);
+  if (v.get("seed")) seed = (uint64_t)v.geti("seed");
+#define X(f) if (v.get(#f)) f = (decltype(f))v.geti(#f);
+  CFG_INT_FIELDS(X)
+#undef X
+#define X(f) if (v.get(#f)) f = v.gets(#f);
+  CFG_STR_FIELDS(X)
+#undef X
+  if (v.get("min_delay")) min_delay = v.geti("min_delay");
+  if (v.get("max_delay")) max_delay = v.geti("max_delay");
+  if (v.get("t0_us")) t0_us = v.geti("t0_us");
+  if (v.get("local_ip4")) local_ip4 = (uint32_t)v.geti("local_ip4");
+  if (v.get("local_ip6")) local_ip6 = v.geti("local_ip6") != 0;
+  auto strs = [&](const char *k, std::vector<std::string> &out) { const JV *a = v.get(k); if (a && a->t == JV::ARR) { out.clear(); for (auto &e : a->a) out.push_back(e.str); } };
+  auto ints = [&](const char *k, std::vector<int> &out) { const JV *a = v.get(k); if (a && a->t == JV::ARR) { out.clear(); for (auto &e : a->a) out.push_back((int)e.i); } };
+  strs("domains", domains); strs("names", names); ints("beh_w", beh_w); ints("zone_w", zone_w); ints("qtypes", qtypes);
+  if (const JV *sv = v.get("servers")) if (sv->t == JV::ARR) {
+    servers.clear();
+    for (auto &e : sv->a) { ServerSpec s; s.ip = e.gets("ip"); s.udp_port = (int)e.geti("udp", 53); s.tcp_port = (int)e.geti("tcp", 53); s.cookie_mode = (int)e.geti("cookie"); s.tcp_refuse = e.geti("tcp_refuse") != 0; s.tcp_blackhole = e.geti("tcp_blackhole") != 0; s.iface = e.gets("iface"); servers.push_back(s); }
+  }
+  if (const JV *e = v.get("env")) if (e->t == JV::OBJ) { env.clear(); for (auto &p : e->o) env[p.first] = p.second.str; }
+  if (const JV *p = v.get("prof")) if (p->t == JV::OBJ) {
+    prof.id = p->gets("id", prof.id);
+#define X(f) if (p->get(#f)) prof.f = (int)p->geti(#f);
+    PROF_INT_FIELDS(X)
+#undef X
+    if (const JV *t = p->get("ttl_choices")) if (t->t == JV::ARR) { prof.ttl_choices.clear(); for (auto &e2 : t->a) prof.ttl_choices.push_back((uint32_t)e2.i); }
+  }
+  if (const JV *k = v.get("knobs")) if (k->t == JV::OBJ) { knobs.clear(); for (auto &p : k->o) knobs[p.first] = p.second.i; }
+  return true;
 }
